@@ -20,6 +20,7 @@ import (
 	"go.uber.org/zap"
 
 	"verif/deepdump"
+	"verif/sched"
 	"verif/shim/vfs"
 )
 
@@ -91,7 +92,8 @@ func submgrKind() kindDef {
 			if !thorough && cfg != "radius" && cfg != "radius/acct=coa" {
 				return nil
 			}
-			return discForms(prefix != "CREATED" && prefix != "AUTH", thorough)
+			// thorough: every attribute subset in the plain and the acct=coa configuration, the quick set in the others
+			return discForms(prefix != "CREATED" && prefix != "AUTH", thorough && (cfg == "radius" || cfg == "radius/acct=coa"))
 		},
 		run: runSubMgr,
 	}
@@ -242,14 +244,14 @@ type smWorld struct {
 	outage string // "", "graceful", "crash", "heals"
 	// acctByCoA (.../acct=coa): the Stop of a nas_request termination is the CoA processor's, not the event handler's
 	acctByCoA bool
-	rc     *bngradius.Client
-	dead   bool // crash: the file system is frozen for the dead process
-	base   mapDump
-	a, b   *smSub
-	active map[string]net.IP // session id -> address, as learned at session_activate
-	sess   map[string]*subscriber.Session
-	terms  map[string]int // session id -> number of session_terminate events
-	viols  []viol
+	rc        *bngradius.Client
+	dead      bool // crash: the file system is frozen for the dead process
+	base      mapDump
+	a, b      *smSub
+	active    map[string]net.IP // session id -> address, as learned at session_activate
+	sess      map[string]*subscriber.Session
+	terms     map[string]int // session id -> number of session_terminate events
+	viols     []viol
 }
 
 var smSeq atomic.Int64
@@ -387,6 +389,19 @@ func (w *smWorld) endOfProcess(site string) {
 	synctest.Wait()
 }
 
+// atomicRes runs f (the handler's calls into nat.Manager / qos.Manager) as one atomic step under the cooperative
+// scheduler, as they ran before nat and qos were compiled with the scheduler's sync shim: the interleavings INSIDE
+// those release primitives are explored by the per-resource scenarios of sched_res_test.go (and, through the
+// repository's own call sites, by the dhcp and teardown scenarios); here the schedule budget goes to the manager's
+// and the accounting manager's code, whose scheduling points are unchanged.
+func atomicRes(f func()) {
+	if x := sched.Active(); x != nil {
+		x.Sequential(f)
+		return
+	}
+	f()
+}
+
 // onEvent: what a deployment hangs on the manager's events.
 func (w *smWorld) onEvent(ev *subscriber.SessionEvent) {
 	switch ev.Type {
@@ -398,20 +413,24 @@ func (w *smWorld) onEvent(ev *subscriber.SessionEvent) {
 			return
 		}
 		w.active[s.ID] = s.IPv4
-		if _, err := w.natM.AllocateNAT(s.IPv4); err != nil {
-			panic("harness: NAT: " + err.Error())
-		}
-		if err := w.qosM.SetSubscriberPolicy(s.IPv4, "residential-100mbps"); err != nil {
-			panic("harness: QoS: " + err.Error())
-		}
+		atomicRes(func() {
+			if _, err := w.natM.AllocateNAT(s.IPv4); err != nil {
+				panic("harness: NAT: " + err.Error())
+			}
+			if err := w.qosM.SetSubscriberPolicy(s.IPv4, "residential-100mbps"); err != nil {
+				panic("harness: QoS: " + err.Error())
+			}
+		})
 		if err := w.acct.StartSession(&bngradius.AccountingSession{SessionID: s.ID, Username: s.Username, MAC: s.MAC, FramedIP: s.IPv4}); err != nil {
 			panic("harness: accounting start: " + err.Error())
 		}
 	case subscriber.EventSessionTerminate:
 		w.terms[ev.SessionID]++
 		if ip, ok := w.active[ev.SessionID]; ok {
-			w.natM.DeallocateNAT(ip)
-			w.qosM.RemoveSubscriberQoS(ip)
+			atomicRes(func() {
+				w.natM.DeallocateNAT(ip)
+				w.qosM.RemoveSubscriberQoS(ip)
+			})
 			if !(w.acctByCoA && ev.Reason == string(subscriber.TerminateNASRequest)) {
 				w.acct.StopSession(ev.SessionID, bngradius.TerminateCauseUserRequest) // "not found" after a CoA disconnect already stopped it
 			}
